@@ -34,12 +34,12 @@ static const scpi_command_t cmds[] = {
     SCPI_CMD_LIST_END
 };
 
-typedef struct { int16_t code; char letter; int8_t len; } ment_t;     /* len < 0: pushed without text */
+typedef struct { int16_t code; char letter; int8_t len; int8_t q; } ment_t;     /* len < 0: pushed without text; q: 0 letters only, 1 last character is a double quote, 2 first character is */
 static ment_t model[MAXCAP];
 static int mcount = 0;
 
-enum { OP_PUSH, OP_PUSHX, OP_PUSHN, OP_QUERY, OP_CLEAR, OP_CLS };
-typedef struct { int kind; int len, xlen; } op_t;
+enum { OP_PUSH, OP_PUSHX, OP_PUSHQ, OP_PUSHN, OP_QUERY, OP_CLEAR, OP_CLS };
+typedef struct { int kind; int len, xlen, q; } op_t;
 static op_t ops[64];
 static int nops = 0;
 
@@ -48,6 +48,7 @@ static void opname(int op, char * buf, size_t n) {
     switch (o->kind) {
         case OP_PUSH: snprintf(buf, n, "push(text of %d chars)", o->len); break;
         case OP_PUSHX: snprintf(buf, n, "push(text of %d chars, info_len=%d)", o->len, o->xlen); break;
+        case OP_PUSHQ: snprintf(buf, n, "push(text of %d chars, the %s one a double quote)", o->len, o->q == 1 ? "last" : "first"); break;
         case OP_PUSHN: snprintf(buf, n, "push(no text)"); break;
         case OP_QUERY: snprintf(buf, n, "SYST:ERR?"); break;
         case OP_CLEAR: snprintf(buf, n, "ErrorClear"); break;
@@ -62,6 +63,9 @@ static void build_ops(void) {
     if (H >= 3) { ops[nops].kind = OP_PUSHX; ops[nops].len = 3; ops[nops].xlen = 1; nops++; }
     if (H >= 4) { ops[nops].kind = OP_PUSHX; ops[nops].len = H; ops[nops].xlen = 2; nops++; }
     if (H >= 3) { ops[nops].kind = OP_PUSHX; ops[nops].len = 2; ops[nops].xlen = 2; nops++; }      /* explicit length == text length: source not terminated */
+    if (H >= 3) { ops[nops].kind = OP_PUSHQ; ops[nops].len = 2; ops[nops].q = 1; nops++; }          /* quotes: doubled on output, part by part when the text wraps */
+    if (H >= 5) { ops[nops].kind = OP_PUSHQ; ops[nops].len = 4; ops[nops].q = 1; nops++; }
+    if (H >= 4) { ops[nops].kind = OP_PUSHQ; ops[nops].len = 3; ops[nops].q = 2; nops++; }
     ops[nops++].kind = OP_PUSHN;
     ops[nops++].kind = OP_QUERY;
     ops[nops++].kind = OP_CLEAR;
@@ -136,24 +140,29 @@ static char free_letter(void) {
     return 'Z';
 }
 
-static void model_push(int16_t code, char letter, int len) {
-    if (mcount == cap) { model[cap - 1].code = -350; model[cap - 1].len = -1; model[cap - 1].letter = 0; n_overflow++; }
-    else { model[mcount].code = code; model[mcount].letter = letter; model[mcount].len = (int8_t) len; mcount++; }
+static void model_push(int16_t code, char letter, int len, int q) {
+    if (mcount == cap) { model[cap - 1].code = -350; model[cap - 1].len = -1; model[cap - 1].letter = 0; model[cap - 1].q = 0; n_overflow++; }
+    else { model[mcount].code = code; model[mcount].letter = letter; model[mcount].len = (int8_t) len; model[mcount].q = (int8_t) q; mcount++; }
+}
+static void mk_text(char * t, char letter, int len, int q) {
+    memset(t, letter, (size_t) len); t[len] = 0;
+    if (q == 1 && len > 0) t[len - 1] = '"';
+    if (q == 2 && len > 0) t[0] = '"';
 }
 
-static void do_push(int len, int xlen) {
+static void do_push(int len, int xlen, int q) {
     char text[MAXH + 2];
     char letter = free_letter();
-    int16_t code = (int16_t) -(100 + len + (xlen ? 30 : 0));
-    memset(text, letter, (size_t) len); text[len] = 0;
+    int16_t code = (int16_t) -(100 + len + (xlen ? 30 : 0) + (q ? 60 : 0));
+    mk_text(text, letter, len, q);
     if (xlen && xlen == len) { char * src = (char *) malloc((size_t) len); memcpy(src, text, (size_t) len); SCPI_ErrorPushEx(&ctx, code, src, (size_t) xlen); free(src); }
     else SCPI_ErrorPushEx(&ctx, code, text, (size_t) xlen);
-    model_push(code, letter, (xlen && xlen < len) ? xlen : len);
+    model_push(code, letter, (xlen && xlen < len) ? xlen : len, q);
 }
 
 static void check_query(void) {
-    ment_t m = {0, 0, -1};
-    char exp[128], want[MAXH + 2];
+    ment_t m = {0, 0, -1, 0};
+    char exp[128], want[MAXH + 2], plain[256];
     const char * desc;
     size_t dl;
     if (mcount > 0) { m = model[0]; memmove(model, model + 1, sizeof (ment_t) * (size_t) (mcount - 1)); mcount--; }
@@ -166,12 +175,17 @@ static void check_query(void) {
         return;
     }
     if (m.len < 0) { mcx_viol("c20/text-for-textless-entry", "entry %d was pushed without text but SYST:ERR? answered [%s]", m.code, mc_es(outbuf)); return; }
-    memset(want, m.letter, (size_t) m.len); want[m.len] = 0;
+    mk_text(want, m.letter, m.len, m.q);
     {
         size_t ol = strlen(outbuf + dl);
         const char * got = outbuf + dl + 1;      /* behind ';' */
-        size_t gl = ol >= 4 ? ol - 4 : 0;        /* without ; and "\r\n */
+        size_t gl = ol >= 4 ? ol - 4 : 0, i2, pl = 0;        /* without ; and "\r\n */
         if (outbuf[dl] != ';' || ol < 4 || strcmp(outbuf + dl + 1 + gl, "\"\r\n")) { mcx_viol("c20/malformed-response", "SYST:ERR? answered [%s]", mc_es(outbuf)); return; }
+        for (i2 = 0; i2 < gl && pl < sizeof plain - 1; i2++) {       /* undo the doubling of quotes */
+            if (got[i2] == '"') { if (i2 + 1 >= gl || got[i2 + 1] != '"') { mcx_viol("c20/malformed-response", "SYST:ERR? answered [%s]: single double quote inside the string", mc_es(outbuf)); return; } i2++; }
+            plain[pl++] = got[i2];
+        }
+        plain[pl] = 0; got = plain; gl = pl;
         if (gl == (size_t) m.len && !memcmp(got, want, gl)) { n_text_intact++; return; }
         if (gl < (size_t) m.len && !memcmp(got, want, gl)) mcx_viol("c20/text-truncated", "entry %d pushed with '%s' reports '%s'", m.code, want, mc_e(got, gl));
         else if (gl > (size_t) m.len && !memcmp(got, want, (size_t) m.len)) mcx_viol("c20/text-merged", "entry %d pushed with '%s' reports '%s'", m.code, want, mc_e(got, gl));
@@ -208,9 +222,10 @@ static int apply(int op) {
     int cnt0 = mcount;
     outn = 0; outbuf[0] = 0;
     switch (o->kind) {
-        case OP_PUSH: do_push(o->len, 0); break;
-        case OP_PUSHX: do_push(o->len, o->xlen); break;
-        case OP_PUSHN: SCPI_ErrorPush(&ctx, -300); model_push(-300, 0, -1); break;
+        case OP_PUSH: do_push(o->len, 0, 0); break;
+        case OP_PUSHX: do_push(o->len, o->xlen, 0); break;
+        case OP_PUSHQ: do_push(o->len, 0, o->q); break;
+        case OP_PUSHN: SCPI_ErrorPush(&ctx, -300); model_push(-300, 0, -1, 0); break;
         case OP_QUERY: SCPI_Input(&ctx, "SYST:ERR?\n", 10); check_query(); break;
         case OP_CLEAR: SCPI_ErrorClear(&ctx); mcount = 0; break;
         default: SCPI_Input(&ctx, "*CLS\n", 5); mcount = 0; break;
@@ -257,6 +272,7 @@ int main(int argc, char ** argv) {
     /* a large heap (320 bytes) and texts longer than 255 characters: store, report, release, store again; then a text
      * that needs the complete heap (linear scenario; the response is limited to 255 characters, so texts are compared
      * as prefixes) */
+    mc_phase(1);
     if (MC_CASE()) {
         static char big[330];
         static const int lens[] = {300, 300, 319, 255, 256, 100, 319};
